@@ -364,7 +364,7 @@ def install_delete(w):
         n = target(s, id)
         ch = bterm(children)
         return {"present": store_map(s)[Val.strv(id)] != smt.absent,
-                "is-node": z3.Implies(ch, z3.And(Val.is_ref(store_map(s)[Val.strv(id)]), s.is_node(n), s.fs("_id", n) == id)),
+                "is-node": z3.Implies(ch, z3.And(Val.is_ref(store_map(s)[Val.strv(id)]), s.is_node(n), s.f("_id", n) == Val.strv(id))),
                 "tree": z3.Implies(ch, z3.And(TREE(s, n), wf_sub(s, n))),
                 "registered": z3.Implies(ch, reg_sub(s, n)),
                 "kids-typed": kids_typed(s)}
